@@ -35,7 +35,7 @@ inductive Esc where
   | dig | word | space | nameStart | nameChar
   | cat (name : String)
   | block (name : String)
-deriving Repr, BEq
+deriving Repr, BEq, DecidableEq
 
 def Esc.mem : Esc → Char → Bool
   | .dig, c => Unicode.isXsdDigit c
@@ -52,7 +52,7 @@ inductive CItem where
   | ch (c : Char)
   | range (lo hi : Char)
   | esc (neg : Bool) (e : Esc)
-deriving Repr, BEq
+deriving Repr, BEq, DecidableEq
 
 def CItem.mem : CItem → Char → Bool
   | .ch a, c => a == c
